@@ -174,7 +174,7 @@ func zzID(w Watch) WatchID {
 // subset of their informers since removed), for every call of the engine's
 // API, with the controller's Watch possibly failing.
 //
-//gosym:harness seqgo
+//gosym:harness seqgo locks
 //gosym:cover running stopped lost-informer restarted watch-failed stopwatches
 func HarnessC13EngineSteps() {
 	infs := &zzInformers{}
@@ -341,7 +341,7 @@ func HarnessC13EngineSteps() {
 // also when it is the retry of a call that failed half-way; a controller
 // restarted afterwards has one live handler per recorded watch, never two.
 //
-//gosym:harness seqgo
+//gosym:harness seqgo locks
 //gosym:cover removal-failed retried restarted-clean stopwatches-retried
 func HarnessC13StopRetry() {
 	infs := &zzInformers{}
